@@ -102,6 +102,9 @@ func (ec *ECDSA) Verify(signature hotstuff.QuorumSignature, message []byte) erro
 	if n == 0 {
 		return fmt.Errorf("ecdsa: failed to verify: no participants")
 	}
+	if s.hasDuplicateSigner() {
+		return fmt.Errorf("ecdsa: failed to verify: repeated signer")
+	}
 
 	results := make(chan error, n)
 	hash := sha256.Sum256(message)
@@ -129,6 +132,9 @@ func (ec *ECDSA) BatchVerify(signature hotstuff.QuorumSignature, batch map[hotst
 	n := signature.Participants().Len()
 	if n == 0 {
 		return fmt.Errorf("ecdsa: failed to verify batch: no participants")
+	}
+	if s.hasDuplicateSigner() {
+		return fmt.Errorf("ecdsa: failed to verify batch: repeated signer")
 	}
 
 	results := make(chan error, n)
